@@ -341,10 +341,48 @@ def run(chk):
     valid = [b for b in behs if b[0]["res"][0] == "ok" and len(b) > 3]
     if valid:
         chk.sample({"configuration": valid[0][0]["cfg"], "steps": [{k: s[k] for k in ("op", "cat", "pw", "h", "res")} for s in valid[0][1:4]]})
+    category_specific_settings(chk)
     chk.extra["behaviours"] = len(behs)
     chk.extra["valid_configurations"] = sum(1 for b in behs if b[0]["res"][0] == "ok")
     chk.assumptions += ["schemes are real handlers pre-customised to cheap default costs (sha256_crypt 2000, bcrypt 5, bsdi_crypt 21); hard limits are the real ones",
                         "scheme-specific self-flags (bcrypt padding bits, bcrypt_sha256 v1) are not exercised; bsdi even costs are"]
+
+
+SPECIFIC = [("scrypt", "block_size", 2, lambda s: int(s.split(",r=")[1].split(",")[0]), 8, dict(scrypt__rounds=1)),
+            ("fshp", "variant", 0, lambda s: int(s[5]), 1, dict(fshp__rounds=1)),
+            ("bcrypt", "ident", "2a", lambda s: s[1:3], "2b", dict(bcrypt__rounds=4)),
+            ("bcrypt_sha256", "version", 1, lambda s: 2 if "v=2" in s else 1, 2, dict(bcrypt_sha256__rounds=4))]
+
+
+def category_specific_settings(chk):
+    """hasher-specific options given for ONE category (and through one context) stay there: the other category, another context and the
+    registered hasher itself keep their own values"""
+    from passlib.context import CryptContext
+    from passlib import registry
+    for name, key, special, read, normal, extra in SPECIFIC:
+        try:
+            h = registry.get_crypt_handler(name)
+            if hasattr(h, "has_backend") and not h.has_backend():
+                continue
+        except Exception:
+            continue
+        chk.count(("category-specific", name, key))
+        chk.action("category-specific-setting")
+        try:
+            before = read(h.using(**{k.split("__")[1]: v for k, v in extra.items()}).hash("pw"))
+            ctx = CryptContext(schemes=[name], **extra, **{f"kiosk__{name}__{key}": special})
+            other = CryptContext(schemes=[name], **extra)
+            got = dict(kiosk=read(ctx.hash("pw", category="kiosk")), default=read(ctx.hash("pw")), other=read(other.hash("pw")),
+                       hasher=read(h.using(**{k.split("__")[1]: v for k, v in extra.items()}).hash("pw")))
+            flags = dict(kiosk_special_needs_update=ctx.needs_update(ctx.hash("pw", category="kiosk"), category="kiosk"),
+                         default_normal_needs_update=ctx.needs_update(other.hash("pw")))
+        except Exception as ex:
+            chk.violation(f"category-setting:{name}:{type(ex).__name__}", f"context with kiosk__{name}__{key}={special!r}: {type(ex).__name__}: {ex}", {"scheme": name, "key": key})
+            continue
+        want = dict(kiosk=special, default=normal, other=normal, hasher=normal)
+        if before != normal or got != want or flags["kiosk_special_needs_update"] or flags["default_normal_needs_update"]:
+            chk.violation(f"category-setting:{name}:{key}", f"kiosk__{name}__{key}={special!r}: hashes carry {got} (expected {want}); fresh hashes flagged for update: {flags}",
+                          {"scheme": name, "key": key, "got": {k: str(v) for k, v in got.items()}})
 
 
 def replay(chk, path):
